@@ -116,7 +116,8 @@ def scenario(max_h: int = 8) -> Any:
                 shots_ = [e for e in ents if "t_off_us" in e]
                 if shots_:
                     ents.append(dict(shots_[0]))
-            sources.append({"kind": kind, "entries": ents, "fail_polls": sorted(fails) if kind != "label" else []})
+            sources.append({"kind": kind, "entries": ents, "fail_polls": sorted(fails) if kind != "label" else [],
+                            "live_list": bool(d["live_list"]) and kind != "label"})
         return {"base_us": base, "horizon_min": H, "sources": sources, "latencies": d["latencies"], "kick_fail": sorted(d["kick_fail"])}
 
     src = st.tuples(st.sampled_from(["scripted", "scripted", "scripted", "label"]), entries(),
@@ -130,6 +131,7 @@ def scenario(max_h: int = 8) -> Any:
         "latencies": st.one_of(st.just([0.0]), st.just([0.0]), st.lists(st.sampled_from([0.0, 0.0, 0.5, 1.0, 2.0, 61.0]), min_size=1, max_size=4)),
         "kick_fail": st.one_of(st.just(set()), st.just(set()), st.sets(st.integers(0, 30), max_size=5)),
         "dup_label": st.booleans(),
+        "live_list": st.sampled_from([False, False, True]),     # scripted sources return their own list object and edit it in place in post_send
     }).map(fin)
 
 
